@@ -1,0 +1,13 @@
+//go:build verif
+
+// Contracts checked by /verif/gvc (contract-based deductive verification).
+// This file contains comments only; it is compiled only under the "verif" build tag.
+
+package packets
+
+// totalBytes(p): the encoded length of packet p as recorded in its fixed header
+// (1 byte + the length of the variable-byte Remaining Length + Remaining Length).
+//@ spec func totalBytes(p Packet) uint32 = ?
+
+//@ func TotalBytes trusted pure
+//@ ensures result == totalBytes(p)
